@@ -332,6 +332,10 @@ static void c7_pagedamage(int kind,long i,long j,long long v){
         else if(kind==12){ pg[18]=v&255; pg[19]=(v>>8)&255; pg[20]=(v>>16)&255; pg[21]=(v>>24)&255; c7_recrc(pg,len); }
       }
       if(kind==7&&me)buf_add(&out,src,len);
+      if(kind==22&&me){ /* behind page i: a capture pattern announcing the largest possible page (255 segments of 255 bytes) with a checksum that
+                           cannot match, then v junk bytes — the sync layer has to buffer 64 kB before it can dismiss it */
+        unsigned char h[27+255]; long q; uint32_t st=(uint32_t)(v*2654435761u+k)|1; memset(h,0,sizeof h); memcpy(h,"OggS",4); h[5]=0; h[14]=0x11; h[22]=0xde; h[23]=0xad; h[26]=255; memset(h+27,255,255);
+        buf_add(&out,h,sizeof h); for(q=0;q<v&&q<200000;q++){ unsigned char c; st^=st<<13; st^=st>>17; st^=st<<5; c=st&255; if(c=='O')c='o'; buf_add(&out,&c,1); } }
     }
   }
   free(c7_phys.p); c7_phys=out;
